@@ -144,7 +144,15 @@ def worker_main(prop, shard_path, out_path):
     i = wid
     while i < ncases and time.time() < deadline:
         rng = random.Random(f"{prop}:{seed}:{i}")
-        case = mod.gen_case(rng, tier, i)
+        try:
+            case = mod.gen_case(rng, tier, i)
+        except Exception as exc:  # noqa: a generator bug is a harness error
+            account({"generator_index": i},
+                    {"sig": None, "violations": [], "counters": {},
+                     "inconclusive": "harness-error:generator:"
+                     f"{type(exc).__name__}:{exc}"[:200]},
+                    f"random:{seed}:{i}")
+            case = None
         if case is not None:
             res = run_one(mod, case)
             account(case, res, f"random:{seed}:{i}")
@@ -342,7 +350,7 @@ def main(argv=None):
             inconclusive_reasons.append(f"monitor-never-reached:{c}")
     if dead_workers:
         inconclusive_reasons.append(
-            "workers-lost:" + ";".join(f"{w}:{r[:200]}" for w, r in dead_workers)
+            "workers-lost:" + ";".join(f"{w}:{r[-300:]}" for w, r in dead_workers)
         )
     if merged["evaluations"] == 0:
         inconclusive_reasons.append("no-cases-ran")
